@@ -112,6 +112,28 @@ def _copy_applies_kwargs(prog: Program, cp: FuncInfo) -> Tuple[bool, str]:
                     return False, 'the keyword arguments of copy() are not merged over the defaults on every path'
             else:
                 return False, f'keyword arguments `{norm(v)[:60]}` not recognised'
+        # what the constructor cannot do without is given: every parameter of the rebuilt class' constructor that has no default is
+        # supplied explicitly from the same attribute of the method copied (`method=self.method`, `view_cls=self.view_cls`, …)
+        ent = prog.resolve(cp.module, call.func, cp.cls)
+        ctor = prog.find_method(ent, '__init__') if isinstance(ent, ClassInfo) else None
+        if ctor is not None:
+            a_ = ctor.node.args
+            pos_ = [x.arg for x in a_.posonlyargs + a_.args][1:]
+            n_def = len(a_.defaults)
+            required = pos_[:len(pos_) - n_def] + [x.arg for x, d_ in zip(a_.kwonlyargs, a_.kw_defaults) if d_ is None]
+            given = set(pos_[:len(call.args)]) | {k.arg for k in call.keywords if k.arg}
+            for al in fl.alts(n, splats[0]):
+                if isinstance(al.expr, ast.Dict):
+                    given |= {k.value for k in al.expr.keys if isinstance(k, ast.Constant)}
+                elif isinstance(al.expr, ast.Call) and dotted(al.expr.func) == 'dict':
+                    given |= {k.arg for k in al.expr.keywords if k.arg}
+            missing = [r for r in required if r not in given]
+            if missing:
+                return False, (f'`{norm(call)[:90]}` does not pass `{missing[0]}`, which {ent.name}.__init__ requires: every copy() raises TypeError, '
+                               f'so a registry holding such a method can no longer be merged into another one')
+            for k in call.keywords:
+                if k.arg in required and dotted(k.value) != f'self.{k.arg}' and not (isinstance(k.value, ast.Attribute) and dotted(k.value.value) == 'self'):
+                    return False, f'`{norm(call)[:90]}` passes {k.arg}={norm(k.value)} instead of the copied method\'s own {k.arg}'
         return True, 'defaults (name=self.name, …) overridden by the keyword arguments of copy()'
     return False, 'no constructor call returned'
 
@@ -262,37 +284,8 @@ def run(ck: Check, prog: Program) -> None:
     # `@registry.add` / `@registry.view` (with or without arguments) leave the decorated function / class bound to its name: the inner
     # decorator returns its argument, the outer returns the decorator when called without a subject and the decorated subject otherwise
     for reg_m in (reg.methods['add'], reg.methods['view']):
-        inner = [g for g in reg_m.nested.values() if isinstance(g.node, (ast.FunctionDef, ast.AsyncFunctionDef))]
-        probs_d = []
-        if len(inner) != 1:
-            probs_d.append(f'{len(inner)} inner decorators')
-        else:
-            dec = inner[0]
-            subj = dec.params[0].arg if dec.params else None
-            rets = [x for x in walk_own(dec.node) if isinstance(x, ast.Return)]
-            falls_off = not rets
-            if falls_off or any(x.value is None or dotted(x.value) != subj for x in rets):
-                probs_d.append(f'the inner decorator does not return the {subj} it decorates on every path')
-            inner_nodes = {id(y) for y in ast.walk(dec.node)}
-            outer_rets = [x for x in walk_own(reg_m.node) if isinstance(x, ast.Return) and id(x) not in inner_nodes]
-            first = reg_m.params[1].arg if len(reg_m.params) > 1 else None
-            kinds_ = set()
-            from ..flow import Flow as _FlowD
-            from ..util import stmt_node_of as _sno
-            cfg_d = CFG(reg_m, prog)
-            fl_d = _FlowD(cfg_d)
-            for x in outer_rets:
-                n_x = _sno(cfg_d, x.value) if x.value is not None else None
-                leaves = [al.expr for al in fl_d.alts(n_x, x.value)] if (n_x is not None and x.value is not None) else [x.value]
-                for v in leaves:
-                    if isinstance(v, ast.Name) and v.id == dec.name:
-                        kinds_.add('decorator')
-                    elif isinstance(v, ast.Call) and isinstance(v.func, ast.Name) and v.func.id == dec.name and [dotted(a) for a in v.args] == [first]:
-                        kinds_.add('decorated')
-                    else:
-                        probs_d.append(f'`{norm(x)[:50]}` returns neither the decorator nor the decorated {first}')
-            if not probs_d and kinds_ != {'decorator', 'decorated'}:
-                probs_d.append(f'only the form(s) {sorted(kinds_)} are returned')
+        from .common import decorator_protocol_problems
+        probs_d = decorator_protocol_problems(prog, reg_m)
         ck.ob('NAME-COMPOSE', f'{short(reg_m.qualname)}: usable as `@{reg_m.name}` and `@{reg_m.name}(...)`, handing back what it decorates', not probs_d)
         for pd in probs_d:
             ck.finding('NAME-COMPOSE', reg_m.qualname, f'decorator protocol: {pd[:50]}', reg_m.module.rel, reg_m.node.lineno,
@@ -578,6 +571,12 @@ def run(ck: Check, prog: Program) -> None:
         ck.ob('LOOKUP-EXACT', f'{r.cls.name}: the request method name is looked up unmodified; a miss is -32601', not bad)
         for rule, construct, line, msg in bad:
             ck.finding('LOOKUP-EXACT', r.handle_rpc_method.qualname, construct, r.dispatch.module.rel, line, msg)
+
+
+def TOTAL_SCOPE(prog: Program) -> List[str]:
+    """The registry's read API and the dispatcher's registry accessors are how the registered names are observed."""
+    return [q for q in prog.funcs if q.startswith('pjrpc.server.dispatcher.MethodRegistry.') or q.startswith('pjrpc.server.dispatcher.BaseDispatcher.')
+            or q.startswith('pjrpc.server.dispatcher.ViewMethod.') or q.startswith('pjrpc.server.dispatcher.Method.')]
 
 
 MUTANTS = [
